@@ -127,6 +127,10 @@ Inductive iobj : Type :=
 | OScript (items : list value) (i : nat)      (* user class Script: items[i], may contain sentinels *)
 | OCount (hi cur : Z)
 | OForever (cur : Z)
+| ODeck (cards : list value) (pos : nat)      (* user iterable Deck: iter() REWINDS (pos = 0) and returns self *)
+| OBag (items : list value)                   (* user iterable Bag: iter() returns a separate cursor (Script); no next() *)
+| OVBag (vid : nat)                           (* user iterable VBag: iter() returns the built-in iterator of its inner vec *)
+| OChained (vid : nat) (k : Z)                (* user iterable Chained: iter() returns inner.iter().filter(even).map(+k) *)
 | OMap (f : fn) (inner : nat)                 (* MapIter { iterable, func } *)
 | OFilter (p : pr) (inner : nat).             (* FilterIter { iterable, predicate } *)
 
@@ -155,6 +159,10 @@ Definition static (o : iobj) : iobj :=
   | OScript items _ => OScript items 0
   | OCount hi _ => OCount hi 0
   | OForever _ => OForever 0
+  | ODeck cards _ => ODeck cards 0
+  | OBag items => OBag items
+  | OVBag vid => OVBag vid
+  | OChained vid k => OChained vid k
   | OMap f i => OMap f i
   | OFilter p i => OFilter p i
   end.
@@ -185,6 +193,11 @@ Fixpoint obj_next (fuel : nat) (st : store) (id : nat) : option (value * store) 
         let '(r, c) := count_next hi cur in Some (or_stop r, set_obj st id (OCount hi c))
       | OForever cur =>
         let '(r, c) := forever_next cur in Some (or_stop r, set_obj st id (OForever c))
+      | ODeck cards pos =>
+        let '(r, c) := vec_next cards pos in Some (or_stop r, set_obj st id (ODeck cards c))
+      (* these iterables have no next(): AttributeError in the language; every consumer of core.yl calls iter()
+         first (side condition C18_side_consumers_call_iter over gen/IterFns.v), so this is never reached *)
+      | OBag _ | OVBag _ | OChained _ _ => Some (VNil, st)
       | OMap f inner =>
         match obj_next k st inner with
         | None => None
@@ -197,6 +210,20 @@ Fixpoint obj_next (fuel : nat) (st : store) (id : nat) : option (value * store) 
         end
       end
     end
+  end.
+
+(* x.iter(): Iter.iter / MapIter.iter / FilterIter.iter and the native iterators return the receiver; the user
+   iterables of the prelude do real work *)
+Definition obj_iter (st : store) (id : nat) : nat * store :=
+  match nth_error (heap st) id with
+  | Some (ODeck cards _) => (id, set_obj st id (ODeck cards 0))
+  | Some (OBag items) => alloc_obj st (OScript items 0)
+  | Some (OVBag vid) => alloc_obj st (OVecIter vid 0)
+  | Some (OChained vid k) =>
+    let '(a, s1) := alloc_obj st (OVecIter vid 0) in
+    let '(c, s2) := alloc_obj s1 (OFilter IsEven a) in
+    alloc_obj s2 (OMap (AddK k) c)
+  | _ => (id, st)
   end.
 
 (* n successive next() calls: the values, and the final store *)
